@@ -15,13 +15,18 @@ def run(ctx, args):
     quick = ctx.tier == "quick"
     rng = random.Random(ctx.seed)
     d = ctx.specdir("Consensus")
-    ctx.tlc_mc(d, "MC_Consensus.tla", "MC_Consensus_hist.cfg", workers=2, timeout=600)
-    ctx.tlc_mc(d, "MC_Consensus.tla", "MC_Consensus_snap.cfg", workers=2, timeout=600)
-    ctx.tlc_mc(d, "MC_Consensus.tla", "MC_Consensus_witness.cfg", workers=1, timeout=600,
-               expect_violation="Witness", count=False)
+    from concurrent.futures import ThreadPoolExecutor
+    with ThreadPoolExecutor(max_workers=5) as ex:
+        f1 = ex.submit(ctx.tlc_mc, d, "MC_Consensus.tla", "MC_Consensus_hist.cfg", 2, (), 600)
+        f2 = ex.submit(ctx.tlc_mc, d, "MC_Consensus.tla", "MC_Consensus_snap.cfg", 2, (), 600)
+        f3 = ex.submit(lambda: ctx.tlc_mc(d, "MC_Consensus.tla", "MC_Consensus_witness.cfg", workers=1, timeout=600,
+                                          expect_violation="Witness", count=False))
+        f4 = ex.submit(ctx.tlc_edges, d, "MC_Consensus.tla", "Gen_Consensus_hist.cfg")
+        f5 = ex.submit(lambda: ctx.tlc_edges(d, "MC_Consensus.tla", "Gen_Consensus_snap.cfg", tag="CASE "))
+        for f in (f1, f2, f3):
+            f.result()
+        edges, snaps = f4.result(), f5.result()
     ctx.exhaustive = True
-    edges = ctx.tlc_edges(d, "MC_Consensus.tla", "Gen_Consensus_hist.cfg")
-    snaps = ctx.tlc_edges(d, "MC_Consensus.tla", "Gen_Consensus_snap.cfg", tag="CASE ")
     walks = build_walks(edges, init=1, rng=rng, n_random=(10 if quick else 150), depth=12, maxlen=30)
     if quick:
         # all single-transaction cases, all 2-transaction snapshots, a seeded third of the 3-transaction ones
